@@ -1518,6 +1518,40 @@ def run_impl(case):
             fail(f"array of shape (*n, nvdim) rejected by the array setter ({e4})")
         elif not (tuple(f.array.shape) == tuple(arr0.shape) and np.array_equal(f.array, arr0)):
             fail("the array setter does not store the per-cell array it is given")
+    # ---- fifth step: a source field on the SAME discretisation (same mesh object / an equal mesh), assigned through
+    # the setter / update_field_values / the constructor; afterwards either field is changed in place and the other
+    # one must still hold what was assigned to it (the stored value is the specification's, not a view of the source)
+    if st3 != "ok":
+        k5 = case["sub"] if "sub" in case else len(mesh)
+        same_obj = k5 % 2 == 0
+        via5 = ["setter", "update", "ctor"][(k5 // 2) % 3]
+        gm = mesh if same_obj else df.Mesh(region=df.Region(p1=mesh.region.pmin, p2=mesh.region.pmax, dims=list(mesh.region.dims)), n=mesh.n)
+        base = np.arange(f.array.size).reshape(f.array.shape) % 17 - 8
+        g = df.Field(gm, nvdim=f.nvdim, value=base.astype(f.array.dtype), dtype=f.array.dtype, vdims=f.vdims)
+        want = np.array(g.array)
+        if via5 == "setter":
+            st5, e5 = _err(lambda: setattr(f, "array", g))
+            h = f
+        elif via5 == "update":
+            st5, e5 = _err(lambda: f.update_field_values(g))
+            h = f
+        else:
+            st5, h = _err(lambda: df.Field(mesh, nvdim=f.nvdim, value=g, dtype=f.array.dtype, vdims=f.vdims))
+            e5 = h
+        obs["tags"].append(f"same-mesh-source:{via5}:{'same-object' if same_obj else 'equal-mesh'}:{st5}")
+        if st5 != "ok":
+            fail(f"a source field on the same mesh was rejected ({via5}): {e5}")
+        elif not np.array_equal(h.array, want):
+            fail(f"a source field on the same mesh ({via5}) is not taken over cell by cell")
+        else:
+            g.array[...] = 99
+            if not np.array_equal(h.array, want):
+                fail(f"after assigning a source field on the same mesh ({via5}), changing the SOURCE in place changed the target: "
+                     "the stored values are no longer the specification evaluated at the cell centres")
+            g.array[...] = want
+            h.array[...] = h.array * 2 + 1
+            if not np.array_equal(g.array, want):
+                fail(f"after assigning a source field on the same mesh ({via5}), changing the TARGET in place changed the source")
     return obs
 
 
